@@ -84,9 +84,10 @@ class ThreadedVNCClientProxy:
         def threaded_call(
             protocol: VNCDoToolClient, *args: Any, **kwargs: Any
         ) -> Deferred:
-            def result_callback(result: V) -> V:
+            def result_callback(result: V) -> VNCDoToolClient:
                 self.queue.put(result)
-                return result
+                # the next call needs the client again, whatever this one returned or raised
+                return protocol
 
             d = maybeDeferred(method, protocol, *args, **kwargs)
             d.addBoth(result_callback)
